@@ -1,0 +1,15 @@
+//go:build verif
+
+package keeper
+
+// VerifFailpoint is a verification-only fault-injection hook (build tag "verif"). When set, it is
+// consulted at named points; a non-nil error is returned from the surrounding function, and the
+// hook may also panic to exercise recovery paths.
+var VerifFailpoint func(name string) error
+
+func verifFailpoint(name string) error {
+	if VerifFailpoint != nil {
+		return VerifFailpoint(name)
+	}
+	return nil
+}
